@@ -3,6 +3,12 @@ open Genq.Ws
 #print axioms C13_skeleton_tie
 #print axioms C13_no_double_close
 #print axioms C13_closes_le_one
+#print axioms C13_no_call_stuck
+#print axioms C13_call_actions_decrease_rank
+#print axioms C13_only_own_actions_move_a_call
+#print axioms C13_every_call_returns
+#print axioms C13_reader_ends_partial
+#print axioms C13_reader_ends_full_refuted
 #print axioms C13_pinned_double_close_witness
 #print axioms C13_pinned_duplicate_complete_witness
 #print axioms C13_pinned_close_blocked_witness
